@@ -137,9 +137,10 @@ theorem SInv.init (cfg : Cfg) (t0 peerRwnd : BitVec 32) (hc : CfgOk cfg) (hpr : 
   ⟨init_seq cfg t0 peerRwnd, init_win cfg t0 peerRwnd hc, init_adv cfg t0 peerRwnd, hpr, ⟨[], init_minv cfg t0 peerRwnd⟩,
    by simp, by simp [Sender.init], by simp [Sender.init], by simp [Sender.init]⟩
 
-/-- the `j`-th moved chunk is the chunk in flight at offset `j − a`: same message -/
-theorem SInv.inflight_msg {t0 : BitVec 32} {s : St} {mv : List Chunk} {a : Nat} (h : SInv t0 s mv a)
-    {i : Nat} {x m : Chunk} (hx : s.inflight[i]? = some x) (hm : mv[a + i]? = some m) : x.msg = m.msg := by
+/-- the `j`-th moved chunk is the chunk in flight at offset `j − a`: same TSN, same fragment -/
+theorem SInv.inflight_frag {t0 : BitVec 32} {s : St} {mv : List Chunk} {a : Nat} (h : SInv t0 s mv a)
+    {i : Nat} {x m : Chunk} (hx : s.inflight[i]? = some x) (hm : mv[a + i]? = some m) :
+    m.tsn = x.tsn ∧ Chunk.frag m = Chunk.frag x := by
   obtain ⟨W, hW⟩ := h.minv
   have hi : i < s.inflight.length := by
     rcases Nat.lt_or_ge i s.inflight.length with h' | h'
@@ -167,7 +168,11 @@ theorem SInv.inflight_msg {t0 : BitVec 32} {s : St} {mv : List Chunk} {a : Nat} 
   subst hje
   rw [hm] at hj
   cases hj
-  have := congrArg (fun f => f.2.1) hf
+  exact ⟨ht, hf⟩
+
+theorem SInv.inflight_msg {t0 : BitVec 32} {s : St} {mv : List Chunk} {a : Nat} (h : SInv t0 s mv a)
+    {i : Nat} {x m : Chunk} (hx : s.inflight[i]? = some x) (hm : mv[a + i]? = some m) : x.msg = m.msg := by
+  have := congrArg (fun f => f.2.1) (h.inflight_frag hx hm).2
   simpa [Chunk.frag] using this.symm
 
 /-- ✱ what a FORWARD-TSN built in this state covers: its new cumulative TSN is `t0 + n` for a moved chunk `n`, and every
@@ -200,5 +205,30 @@ theorem SInv.covers {t0 : BitVec 32} {s : St} {mv : List Chunk} {a : Nat} (h : S
       have hab := hab (j - a) _ (by omega) hx
       have hmsg := h.inflight_msg hx (by rw [show a + (j - a) = j by omega]; exact hm)
       exact (AbLe.refl s).abandoned hmsg.symm hab
+
+/-- the chunks `createForwardTSN` / `createIForwardTSN` scan are moved chunks: abandoned, at or below the advanced point -/
+theorem SInv.scanned {t0 : BitVec 32} {s : St} {mv : List Chunk} {a : Nat} (h : SInv t0 s mv a) :
+    ∀ c ∈ fwdChunks s, ∃ m ∈ mv, s.abandoned m = true ∧ sna32LTE m.tsn s.advPeerAck = true ∧ Chunk.frag m = Chunk.frag c := by
+  intro c hc
+  rw [fwdChunks_eq s h.seq h.infl h.adv] at hc
+  obtain ⟨i, hi, hget⟩ := List.getElem_of_mem hc
+  rw [List.getElem_take] at hget
+  have hle := h.adv.le
+  have hal := h.alen
+  have hin := h.infl
+  have hi' : i < (s.advPeerAck - s.cumAck).toNat := by rw [List.length_take] at hi; omega
+  have hil : i < s.inflight.length := by omega
+  have hx : s.inflight[i]? = some c := by rw [List.getElem?_eq_getElem hil, hget]
+  have hm : mv[a + i]? = some mv[a + i] := List.getElem?_eq_getElem (by omega)
+  obtain ⟨ht, hf⟩ := h.inflight_frag hx hm
+  have hab := h.adv.ab i c hi' hx
+  have hmsg := h.inflight_msg hx hm
+  refine ⟨mv[a + i], List.getElem_mem _, (AbLe.refl s).abandoned hmsg.symm hab, ?_, hf⟩
+  rw [ht, contig_getElem h.seq.1 hx]
+  apply (Sna.lte32_iff _ _).2
+  have e2 : (BitVec.ofNat 32 i).toNat = i := by simp; omega
+  generalize BitVec.ofNat 32 i = xi at e2 ⊢
+  generalize hd : (s.advPeerAck - s.cumAck).toNat = d at hi' hle
+  bv_omega
 
 end SenderPR
